@@ -461,8 +461,13 @@ class MiniDB:
                 names.append(alias or (e[2] if e[0] == "col" else S.show(e)))
                 exprs.append(e)
         has_agg = any(x[0] == "call" and x[1] in AGGREGATES for e in exprs for x in S.iter_exprs(e))
+        group_by = getattr(s, "group_by", None) or []
+        if getattr(s, "having", None) is not None:
+            raise SqlUnsupported("HAVING")
         out = []
-        if has_agg:
+
+        def aggregate(scopes):
+            """One result row for a group of source rows."""
             pick = {"row": None}
 
             def agg(e):
@@ -495,7 +500,7 @@ class MiniDB:
             aggvals = {}
             for i, e in enumerate(exprs):
                 if any(x[0] == "call" and x[1] in AGGREGATES for x in S.iter_exprs(e)):
-                    aggvals[i] = self.ev(e, scopes[0] if scopes else list(outer), params, agg) if (scopes or True) else None
+                    aggvals[i] = self.ev(e, scopes[0] if scopes else list(outer), params, agg)
             bare_scope = pick["row"] or (scopes[0] if scopes else None)
             row = []
             for i, e in enumerate(exprs):
@@ -503,7 +508,23 @@ class MiniDB:
                     row.append(aggvals[i])
                 else:
                     row.append(self.ev(e, bare_scope, params) if bare_scope is not None else None)
-            out = [(row, bare_scope or list(outer))]
+            return (row, bare_scope or list(outer))
+        if group_by:
+            # one row per distinct key, in key order (what SQLite's sorter produces for GROUP BY without ORDER BY)
+            groups = []
+            for sc in scopes:
+                key = [self.ev(e, sc, params) for e in group_by]
+                for k2, members in groups:
+                    if all((a is None and b is None) or (a is not None and b is not None and compare(a, b) == 0) for a, b in zip(key, k2)):
+                        members.append(sc)
+                        break
+                else:
+                    groups.append((key, [sc]))
+            for i in range(len(group_by) - 1, -1, -1):
+                groups.sort(key=lambda g: sort_key(g[0][i]))
+            out = [aggregate(members) for _k, members in groups]
+        elif has_agg:
+            out = [aggregate(scopes)]
         else:
             for sc in scopes:
                 out.append(([self.ev(e, sc, params) for e in exprs], sc))
@@ -534,6 +555,11 @@ class MiniDB:
                 keyed.sort(key=lambda kv: kv[0][i][0], reverse=desc)
             out = [it for _k, it in keyed]
         lim = getattr(s, "limit", None)
+        off = getattr(s, "offset", None)
+        if off is not None:
+            n = self.ev(off, list(outer), params)
+            if isinstance(n, int) and n > 0:
+                out = out[n:]
         if lim is not None:
             n = self.ev(lim, list(outer), params)
             if isinstance(n, int) and n >= 0:
